@@ -101,6 +101,13 @@ impl GrammarBuilder {
             self.collect_terminals(grammar_terminals)?;
         }
 
+        if file.grammar_rules.is_none() {
+            return err!(
+                "Grammar must have at least one grammar rule.".to_owned(),
+                Some(self.file.clone())
+            );
+        }
+
         if let Some(rules) = file.grammar_rules {
             // Extract productions and nonterminals from grammar rules.
             self.start_rule_name = rules[0].name.as_ref().into();
